@@ -110,6 +110,7 @@ type Proc struct {
 	parentOut *Pipe
 	waited    bool
 	Started   bool
+	holdOut   bool // a descendant of the (exited) process still holds the write end of its stdout
 }
 
 type World struct {
@@ -243,7 +244,7 @@ func (w *World) Start(c *vexp.Cmd) error {
 
 func (w *World) exit(p *Proc, code, sig int) {
 	p.exitCode, p.signal = code, sig
-	if p.stdout != nil {
+	if p.stdout != nil && !p.holdOut {
 		p.stdout.wclosed = true
 	}
 	if p.stdin != nil {
@@ -329,6 +330,17 @@ func (w *World) runProc(p *Proc) {
 	case "sleep":
 		w.S.Block(func() bool { return p.killed })
 		w.exit(p, 0, 9)
+	case "sleep-orphan":
+		// like sh -c '(sleep 1000; echo late) & wait': killing the shell leaves a
+		// descendant that holds the output pipe open
+		p.holdOut = true
+		w.S.Block(func() bool { return p.killed })
+		w.exit(p, 0, 9)
+	case "orphan":
+		// like sh -c 'sleep 1000 &': the shell exits at once, the descendant keeps the pipe
+		p.holdOut = true
+		w.S.Yield()
+		w.exit(p, 0, 0)
 	default:
 		w.S.Yield()
 		if p.stderr != nil {
@@ -346,7 +358,26 @@ func (w *World) Wait(c *vexp.Cmd) error {
 	if p.waited {
 		return errors.New("exec: Wait was already called")
 	}
-	w.S.Block(func() bool { return p.exited && p.copiers == 0 })
+	// os/exec: Wait returns when the process has exited and the copy goroutines
+	// are done; with WaitDelay > 0 it stops waiting for the copiers that long
+	// after the exit, closes the pipes and reports ErrWaitDelay. The model has
+	// no clock: "a descendant still holds the pipe" is when the delay would
+	// expire, and without a WaitDelay Wait blocks for as long as it does.
+	delayExpired := false
+	w.S.Block(func() bool {
+		if p.exited && p.copiers > 0 && p.holdOut && c.WaitDelay > 0 {
+			delayExpired = true
+			return true
+		}
+		return p.exited && p.copiers == 0
+	})
+	if delayExpired {
+		if p.stdout != nil {
+			p.stdout.wclosed = true // closing the parent's end lets the copier finish
+		}
+		w.ev("waitdelay-expired p%d", p.ID)
+		w.S.Block(func() bool { return p.copiers == 0 })
+	}
 	p.waited = true
 	// closeAfterWait: the parent's pipe ends
 	if p.parentIn != nil {
@@ -362,5 +393,11 @@ func (w *World) Wait(c *vexp.Cmd) error {
 	if p.signal != 0 || p.exitCode != 0 {
 		return vexp.NewExitError(p.exitCode, p.signal)
 	}
+	if delayExpired {
+		return ErrWaitDelay
+	}
 	return nil
 }
+
+// ErrWaitDelay mirrors exec.ErrWaitDelay.
+var ErrWaitDelay = errors.New("exec: WaitDelay expired before I/O complete")
